@@ -100,6 +100,7 @@ def fmt_fn(props=('C17',)):
         stmts[last] = stmts.get(last, '') + '\nproof { assert(f0 + %s =~= f0 + tt); }' % total
         return FnC(ret='r', ensures=[('type_only_text', props, 'wrote(old(f), final(f), r, %s)' % total)],
                    props=props, stmts=stmts)
+    make.props = props
     return make
 
 
